@@ -3,8 +3,12 @@
    on every run) applied to DEFAULT_MAZE yields a 31 x 28 grid that passes maze_ok_b (well-formed, no dead end, borders
    consistent with the wrap-around), with the player and the four ghosts on distinct free cells, four power-ups on free
    cells, and one pellet on every free cell: 318 pellets, all distinct, counter = 318 (the docs say 316).
-   The generator is deterministic by documentation (it ignores the key); the harness checks that. *)
-Require Import JV.Base.Prelude JV.Base.JaxIndex JV.Base.Codec JV.Base.TimeStep JV.Gen.PacManConsts JV.Model.PacMan JV.Proofs.PacMan JV.Proofs.PacMan_Inv JV.Proofs.PacMan_Rules.
+   The generator is deterministic by documentation (it ignores the key); the harness checks that.
+   For EVERY ASCII maze (any size, rectangular or not) whose corner cell (0, 0) is a wall: the reset state has one pellet
+   on every non-wall cell of the maze and nowhere else, pellets and power-ups are pairwise distinct, none is the sentinel
+   (0, 0), the pellet counter is their number, score and clock are 0, four edible ghosts
+   (C10_PacMan_every_maze_counters; sel_nodup / sel_in: the generator enumerates every cell exactly once). *)
+Require Import JV.Base.Prelude JV.Base.JaxIndex JV.Base.Codec JV.Base.TimeStep JV.Gen.PacManConsts JV.Model.PacMan JV.Proofs.PacMan JV.Proofs.PacMan_Inv JV.Proofs.PacMan_Rules JV.Proofs.PacMan_Book JV.Proofs.PacMan_Reset.
 Theorem C10_PacMan_reset_wellformed :
   let s := gen_state DEFAULT_MAZE_ASCII in
   Inv X_SIZE Y_SIZE s /\ X_SIZE = 31 /\ Y_SIZE = 28
@@ -15,6 +19,15 @@ Theorem C10_PacMan_reset_wellformed :
   /\ (px s, py s) = (23, 13).
 Proof. vm_compute. repeat split; reflexivity. Qed.
 Print Assumptions C10_PacMan_reset_wellformed.
+Theorem C10_PacMan_every_maze_counters maze :
+  gat 0 (numpy_maze maze) 0 0 <> 1 ->
+  let s := gen_state maze in
+  pellets_ok_b s = true /\ nodup_b (live (pu_locs s)) = true /\ live (pellet_locs s) = pellet_locs s
+  /\ length (g_eaten s) = 4%nat /\ score s = 0 /\ sc s = 0
+  /\ (forall c r, In (c, r) (pellet_locs s) <->
+        0 <= r < zlen maze /\ 0 <= c < zlen (znth [] maze r) /\ gat 0 (numpy_maze maze) r c = 1).
+Proof. exact (reset_counters maze). Qed.
+Print Assumptions C10_PacMan_every_maze_counters.
 Theorem C10_PacMan_reset_Inv : Inv X_SIZE Y_SIZE (gen_state DEFAULT_MAZE_ASCII).
 Proof. exact default_reset_Inv. Qed.
 Example C10_PacMan_nonvacuous : gget 0 MAZE 14 0 = 1 /\ gget 0 MAZE 0 0 = 0 /\ gpos (ghosts (gen_state DEFAULT_MAZE_ASCII)) 0 = (13, 13).
